@@ -109,6 +109,53 @@ class Arr:
         return Piecewise(*pieces)
 
 
+def known_disequalities(conds):
+    out = set()
+
+    def add(c):
+        if isinstance(c, sp.And):
+            for a in c.args:
+                add(a)
+        elif isinstance(c, sp.Ne):
+            out.add(frozenset((c.lhs, c.rhs)))
+        elif isinstance(c, sp.Not) and isinstance(c.args[0], sp.Equality):
+            out.add(frozenset((c.args[0].lhs, c.args[0].rhs)))
+    for c in conds:
+        add(c)
+    return out
+
+
+def contradictory(conds):
+    """True only when two of the conditions are linear order relations that cannot hold together: e > 0 (or >= 0) and
+    f > 0 (or >= 0) with e + f a constant that excludes it.  Conjunctions are opened; anything else is ignored."""
+    rel = []
+
+    def add(c):
+        if isinstance(c, sp.And):
+            for a in c.args:
+                add(a)
+        elif isinstance(c, (sp.Gt, sp.Ge, sp.Lt, sp.Le)):
+            e = sp.expand(c.lhs - c.rhs)
+            if isinstance(c, (sp.Lt, sp.Le)):
+                e = -e
+            rel.append((e, isinstance(c, (sp.Gt, sp.Lt))))
+        elif isinstance(c, sp.Not) and isinstance(c.args[0], (sp.Gt, sp.Ge, sp.Lt, sp.Le)):
+            add(c.args[0].negated)
+        elif c in (S.false, False):
+            rel.append((Integer(-1), True))
+    for c in conds:
+        add(c)
+    for (e, strict) in rel:
+        if e.is_number and (e < 0 or (strict and e == 0)):
+            return True
+    for a in range(len(rel)):
+        for b in range(a + 1, len(rel)):
+            tot = sp.expand(rel[a][0] + rel[b][0])
+            if tot.is_number and (tot < 0 or (tot == 0 and (rel[a][1] or rel[b][1]))):
+                return True
+    return False
+
+
 def index_into(t, rest):
     """Index further into a term that denotes an array value (applied undef)."""
     if isinstance(t, sp.core.function.AppliedUndef):
@@ -370,6 +417,10 @@ class Symx:
             old = self.sym(e['lhs'], st)
             r = self.sym(e['rhs'], st)
             v = self.arith(op[0], old, r, e['lhs'].get('ty'), e['rhs'].get('ty'), e)
+            lt_, rt_ = str(strip(e['lhs']).get('ty', '')), str(strip_casts(e['rhs']).get('ty', ''))
+            if any(t_ in lt_ for t_ in ('int', 'long', 'short', 'size_t')) and 'std::' not in lt_ and rt_ in ('double', 'float', 'long double') \
+                    and isinstance(v, sp.Basic) and not v.is_integer:
+                v = Function('trunc', integer=True)(v)      # the computation is done in floating point and stored back into an integer
             self.assign(e['lhs'], v, st)
             return v
         if op == ',':
@@ -472,9 +523,17 @@ class Symx:
             a = [self.sym(x, st) for x in args]
             return Function('F:' + self.lv_name(fnv), real=True)(*a)
         short = q.split('::')[-1]
-        if q in ('std::' + short, short) or q.startswith('std::') and short in ('min', 'max', 'swap', 'isnan', 'isinf', 'pow', 'copysign'):
+        if q in ('std::' + short, short) or q.startswith('std::') and short in ('min', 'max', 'swap', 'isnan', 'isinf', 'pow', 'copysign', 'frexp', 'ldexp'):
             if short in self.MATH1 and len(args) == 1:
                 return self.MATH1[short](self.sym(args[0], st))
+            if short == 'ldexp' and len(args) == 2:
+                return self.sym(args[0], st) * sp.Pow(2, self.sym(args[1], st))
+            if short == 'frexp' and len(args) == 2 and strip(args[1]).get('k') == 'Un' and strip(args[1]).get('op') == '&':
+                # x = m 2^e with 1/2 <= |m| < 1 (x != 0)
+                xv = self.sym(args[0], st)
+                ev = sp.floor(sp.log(sp.Abs(xv), 2)) + 1
+                self.assign(strip(args[1])['e'], ev, st)
+                return xv / sp.Pow(2, ev)
             if short == 'copysign' and len(args) == 2:
                 return sp.Abs(self.sym(args[0], st)) * sp.sign(self.sym(args[1], st))
             if short == 'pow' and len(args) == 2:
@@ -503,6 +562,20 @@ class Symx:
             r = self.std_writer(short, args, st)
             if r is not None:
                 return r
+        if q == 'std::reverse' and kind == 'func' and len(args) == 2:
+            # whole-container reversal: element k of the result is element len-1-k of the operand
+            i0, i1 = self.iterator(args[0], st), self.iterator(args[1], st)
+            io = self.iter_container(args[0], st)
+            src = st.env.get(io[0]) if io is not None and io[0] is not None else None
+            if i0 and i1 and i0[0] == i1[0] and isinstance(src, Arr) and src.length is not None and not src.opaque \
+                    and i0[1] == 0 and sp.simplify(i1[1] - src.length) == 0:
+                kv = sp.Dummy('k', integer=True)
+                rev = Arr(src.name)
+                rev.length = src.length
+                rev.defs.append(((kv,), S.true, src.read((src.length - 1 - kv,))))
+                rev.ranges[0] = sp.And(sp.Ge(kv, 0), sp.Lt(kv, src.length))
+                st.env[io[0]] = rev
+                return Integer(0)
         if not c.get('inrepo') and kind == 'func' and q.startswith('std::') and short not in self.STD_ITER_READERS:
             # an unmodelled standard algorithm: whatever container it can write through an iterator argument is unknown afterwards
             for a_ in args:
@@ -1040,6 +1113,8 @@ class Symx:
 
     def inline_call(self, fn, obj, args, st):
         """Inline an in-repo function; only single-outcome (or all-return) bodies."""
+        if self.depth > 0 and contradictory(st.conds):
+            return Symbol('unreachable')      # this path of the enclosing inlined call cannot be taken; it is dropped by that call
         sub = State({}, list(st.conds))
         # `this` fields of callee refer to obj
         for p, a in zip(fn.params, args):
@@ -1068,6 +1143,9 @@ class Symx:
             self.fn = saved_fn
             self.depth -= 1
         live = [o for o in outs if o.kind != 'exit']
+        if len(live) > 1:
+            # paths of the callee whose conditions contradict what is already known at the call site cannot be taken
+            live = [o for o in live if not contradictory(o.state.conds)]
         # copy back by-ref params on single path only
         if len(live) == 1:
             o = live[0]
@@ -1085,6 +1163,8 @@ class Symx:
             for p in fn.params:
                 if p.get('byref') and not p.get('constref'):
                     raise Undecided('multi-path inline with out-params: ' + fn.q)
+            if any(not isinstance(o.value, sp.Basic) for o in live):
+                raise Undecided('multi-path inline with a container value: ' + fn.q)
             pieces = [(o.value, sp.And(*o.state.conds[len(st.conds):])) for o in live]
             return Piecewise(*pieces)
         raise Undecided('cannot inline ' + fn.q)
@@ -1398,6 +1478,8 @@ class Symx:
                 return [], []
             return saved(s, sts)
         self.exec = ex
+        old_rec = getattr(self, '_recorded', None)
+        self._recorded = got
         try:
             st = State({})
             for i in fn.inits:
@@ -1409,6 +1491,7 @@ class Symx:
             saved(fn.body, [st])
         finally:
             self.exec = saved
+            self._recorded = old_rec
         return got
 
     def exec_loop_body(self, body, states):
@@ -1526,12 +1609,90 @@ class Symx:
             hi = hi + 1
         return var, lo, hi
 
+    def strided(self, s, st):
+        """Recognise for(T i = a; i < b; i += d) / for(T i = a; i > b; i -= d) with a loop-invariant stride d:
+        -> (decl, a, signed stride, number of iterations).  The count is 0 when the range is empty and ceil(|b-a|/d)
+        otherwise (a loop whose stride points away from the bound does not terminate and has no summary)."""
+        init, cond, inc = s.get('init'), s.get('cond'), s.get('inc')
+        if not init or not cond or not inc:
+            return None
+        if init['k'] == 'Decl' and len(init['decls']) == 1 and init['decls'][0].get('init') is not None:
+            d = init['decls'][0]
+            var = {'id': d['id'], 'name': d['name'], 'ty': d['ty']}
+            lo = self.sym(d['init'], st)
+        elif init['k'] == 'Expr' and strip(init['e'])['k'] == 'Bin' and strip(init['e'])['op'] == '=' \
+                and strip(strip(init['e'])['lhs'])['k'] == 'Ref':
+            r = strip(strip(init['e'])['lhs'])
+            var = {'id': r['id'], 'name': r['name'], 'ty': r['ty']}
+            lo = self.sym(strip(init['e'])['rhs'], st)
+        else:
+            return None
+        isvar = lambda x: strip_casts(x).get('k') == 'Ref' and strip_casts(x).get('id') == var['id']
+        inc = strip(inc)
+        sgn, stepx = None, None
+        if inc['k'] == 'Bin' and inc['op'] in ('+=', '-=') and isvar(inc['lhs']):
+            sgn, stepx = (1 if inc['op'] == '+=' else -1), inc['rhs']
+        elif inc['k'] == 'Bin' and inc['op'] == '=' and isvar(inc['lhs']):
+            r = strip_casts(inc['rhs'])
+            if r.get('k') == 'Bin' and r['op'] in ('+', '-') and isvar(r['lhs']):
+                sgn, stepx = (1 if r['op'] == '+' else -1), r['rhs']
+            elif r.get('k') == 'Bin' and r['op'] == '+' and isvar(r['rhs']):
+                sgn, stepx = 1, r['lhs']
+        if inc['k'] == 'Un' and inc['op'] in ('++', '--') and isvar(inc['e']):
+            sgn, stepx = (1 if inc['op'] == '++' else -1), {'k': 'Lit', 'lk': 'int', 'v': '1', 'ty': 'int'}
+        if sgn is None:
+            return None
+        c = strip(cond)
+        if c['k'] != 'Bin' or c['op'] not in ('<', '<=', '>', '>='):
+            return None
+        op, bound = c['op'], None
+        if isvar(c['lhs']):
+            bound = c['rhs']
+        elif isvar(c['rhs']):
+            bound = c['lhs']
+            op = {'<': '>', '<=': '>=', '>': '<', '>=': '<='}[op]
+        if bound is None:
+            return None
+        if (sgn > 0) != (op in ('<', '<=')):
+            return None
+        # stride and bound must be loop-invariant
+        assigned = self.assigned_in(s['body'])
+        for x in (stepx, bound):
+            for n in walk_expr(x):
+                if n.get('k') in ('Ref', 'Member'):
+                    key = self.lv_key(n)
+                    if key is not None and (key in assigned or key == var['id']):
+                        return None
+                if n.get('k') == 'Call':
+                    return None
+        step = self.sym(stepx, st)
+        hi = self.sym(bound, st)
+        if step.is_number and step <= 0:
+            return None
+        dist = (hi - lo) if sgn > 0 else (lo - hi)
+        if op in ('<=', '>='):
+            if not ('int' in var['ty'] or 'long' in var['ty'] or 'size_t' in var['ty']):
+                return None
+            dist = dist + 1
+        count = Piecewise((Integer(0), sp.Le(dist, 0)), (sp.ceiling(dist / step), True))
+        self.assumptions_used.add('strided loop at line %s: the stride is positive whenever the range is not empty (termination)' % s.get('l')) \
+            if hasattr(self, 'assumptions_used') else None
+        return var, lo, sgn * step, count
+
     def exec_for(self, s, st):
         cl = self.counted(s, st)
+        stride = None
         if cl is None:
-            self.havoc_loop(s, st)
-            return [st], []
-        var, lo, hi = cl
+            try:
+                stride = self.strided(s, st)
+            except Undecided:
+                stride = None
+            if stride is None:
+                self.havoc_loop(s, st)
+                return [st], []
+            var, lo, hi = stride[0], Integer(0), stride[3]
+        else:
+            var, lo, hi = cl
         assigned = self.assigned_in(s['body'])
         if var['id'] in assigned:
             self.havoc_loop(s, st)
@@ -1544,7 +1705,7 @@ class Symx:
         i = Symbol(var['name'] + '_', integer=True)
         # pre-state for the body: scalars assigned in the body get entry symbols
         body_st = st.fork()
-        body_st.env[var['id']] = i
+        body_st.env[var['id']] = i if stride is None else stride[1] + stride[2] * i
         entry = {}
         arrays = {}
         for key, node in assigned.items():
@@ -1568,11 +1729,37 @@ class Symx:
             ndefs[key] = len(a.defs)
             a.saved_entry = a.entry_from
             a.entry_from = len(a.defs)
+        rec0 = len(self._recorded) if getattr(self, '_recorded', None) is not None else None
         try:
             live, done = self.exec(s['body'], [body_st])
         except Undecided:
             self.havoc_loop(s, st)
             return [st], []
+        if rec0 is not None and len(self._recorded) > rec0 and entry and live:
+            # states recorded inside the body (states_at) see a loop-carried scalar as its entry symbol: give it the closed
+            # form it has at iteration i - a running sum (pre + sum of the earlier increments) or the value stored by the
+            # previous iteration
+            cf = {}
+            for key, sym_in in entry.items():
+                vals = [p.env.get(key, sym_in) for p in live]
+                if not all(isinstance(v_, sp.Basic) for v_ in vals) or any(v_ != vals[0] for v_ in vals[1:]):
+                    continue
+                pre_ = st.env.get(key)
+                if not isinstance(pre_, sp.Basic):
+                    continue
+                others_ = list(entry.values())
+                delta_ = sp.expand(vals[0] - sym_in)
+                ii_ = sp.Dummy('r', integer=True)
+                if not any(delta_.has(o_) for o_ in others_):
+                    cf[sym_in] = pre_ + sp.Sum(delta_.subs(i, ii_), (ii_, lo, i - 1))
+                elif not any(vals[0].has(o_) for o_ in others_):
+                    cf[sym_in] = Piecewise((pre_, sp.Eq(i, lo)), (vals[0].subs(i, i - 1), True))
+            if cf:
+                for stt in self._recorded[rec0:]:
+                    for k2_, v2_ in list(stt.env.items()):
+                        if isinstance(v2_, sp.Basic) and v2_.free_symbols & set(cf):
+                            stt.env[k2_] = v2_.xreplace(cf)
+                    stt.conds[:] = [c_.xreplace(cf) if isinstance(c_, sp.Basic) else c_ for c_ in stt.conds]
         inrange = sp.And(sp.Ge(i, lo), sp.Lt(i, hi))
         loop_exits = []
         if done and live and all(o.kind == 'exit' for o in done):
@@ -1585,6 +1772,74 @@ class Symx:
         if done or not live:
             self.havoc_loop(s, st)
             return [st], []
+        # entry placeholders of one array inside the terms of another (or of a scalar): the value at the start of the
+        # iteration is the value before the loop when no earlier iteration can have written that element
+        AUf = sp.core.function.AppliedUndef
+
+        def written_indices(key2):
+            res = []
+            for p2 in live:
+                a2 = p2.env.get(key2)
+                if not isinstance(a2, Arr):
+                    return None
+                for kvs2, g2, _t in a2.defs[ndefs[key2]:]:
+                    eqs2 = list(g2.args) if isinstance(g2, sp.And) else [g2]
+                    w = {}
+                    for eq2 in eqs2:
+                        if isinstance(eq2, sp.Equality):
+                            if eq2.lhs in kvs2:
+                                w[eq2.lhs] = eq2.rhs
+                            elif eq2.rhs in kvs2:
+                                w[eq2.rhs] = eq2.lhs
+                    if any(kv2 not in w for kv2 in kvs2):
+                        return None
+                    res.append(tuple(w[kv2] for kv2 in kvs2))
+            return res
+
+        def untouched_before(args, key2, neq):
+            ws = written_indices(key2)
+            if ws is None:
+                return False
+            for w in ws:
+                if len(w) > len(args):
+                    return False
+                same = all(sp.simplify(x_ - y_) == 0 for x_, y_ in zip(args, w))
+                injective = any(y_.has(i) and sp.diff(y_, i).is_number and sp.diff(y_, i) != 0 for y_ in w)
+                apart = any((not y_.has(i)) and frozenset((x_, y_)) in neq for x_, y_ in zip(args, w))
+                if not ((same and injective) or apart):
+                    return False
+            return True
+        efs = {}
+        for key2, node2 in arrays.items():
+            b2 = st.env.get(key2)
+            if not isinstance(b2, Arr):
+                b2 = Arr(self.lv_name(node2))
+                if b2.name in self.opaque_arrays:
+                    b2.opaque = True
+            a2 = body_st.env.get(key2)
+            if isinstance(a2, Arr):
+                efs[a2.entry_func()] = (key2, b2)
+        if len(efs) > 1 or entry:
+            for p in live:
+                neq = known_disequalities(list(st.conds) + list(p.conds))
+
+                def resolve(t, own_key):
+                    if not isinstance(t, sp.Basic):
+                        return t
+                    rep = {}
+                    for a_ in t.atoms(AUf):
+                        if a_.func in efs and efs[a_.func][0] != own_key and untouched_before(tuple(a_.args), efs[a_.func][0], neq):
+                            rep[a_] = efs[a_.func][1].read(tuple(a_.args))
+                    return t.xreplace(rep) if rep else t
+                for key1 in arrays:
+                    a1 = p.env.get(key1)
+                    if isinstance(a1, Arr):
+                        for pos1 in range(ndefs[key1], len(a1.defs)):
+                            kvs1, g1, t1 = a1.defs[pos1]
+                            a1.defs[pos1] = (kvs1, g1, resolve(t1, key1))
+                for key1 in entry:
+                    if isinstance(p.env.get(key1), sp.Basic):
+                        p.env[key1] = resolve(p.env[key1], None)
         # merge: arrays
         for key, node in arrays.items():
             base = st.env.get(key)
@@ -1634,6 +1889,11 @@ class Symx:
                         own = tuple(fixed.get(kv_, kv_) for kv_ in kvs)
                         foreign = [a_ for a_ in t2.atoms(sp.core.function.AppliedUndef) if a_.func == ef
                                    and any(sp.simplify(x_ - y_) != 0 for x_, y_ in zip(a_.args[:len(kvs)], own))]
+                        # an element whose fixed coordinate is known to differ from the written one (a condition i != j on the
+                        # path) is never written by this loop: it keeps its value from before the loop
+                        neq = known_disequalities(list(st.conds) + list(p.conds))
+                        foreign = [a_ for a_ in foreign if not any(kv_ in fixed and frozenset((x_, y_)) in neq
+                                                                   for kv_, x_, y_ in zip(kvs, a_.args[:len(kvs)], own))]
                         if foreign:
                             # the body reads an element that an earlier iteration of this loop may have written
                             t2 = self.prefix_recurrence(t2, ef, kvs, foreign, base, lo, isub, i)
@@ -1696,7 +1956,10 @@ class Symx:
             st.env[key] = self.fresh_symbol('%s@loop%d' % (self.lv_name(node), s['l']), node.get('ty'))
         if s['init']['k'] != 'Decl':
             # the counter outlives the loop: its exit value is max(lo, hi)
-            st.env[var['id']] = sp.Max(lo, hi) if strip(s['cond'])['op'] != '!=' else hi
+            if stride is not None:
+                st.env[var['id']] = stride[1] + stride[2] * hi
+            else:
+                st.env[var['id']] = sp.Max(lo, hi) if strip(s['cond'])['op'] != '!=' else hi
         return [st], loop_exits
 
     def prefix_recurrence(self, t2, ef, kvs, foreign, base, lo, isub, i):
